@@ -13,7 +13,7 @@ def uw(l):
 for l in (0, 1, 2, 7):
     for mask in range(8):
         for order in range(6):
-            quick = (l == 2 and (mask, order) in ((0, 0), (1, 3), (2, 5), (5, 1), (7, 2))) or (l == 0 and mask == 7 and order == 0)
+            quick = (l == 1 and (mask, order) in ((0, 0), (1, 3), (2, 5), (5, 1), (7, 2))) or (l == 0 and mask == 7 and order == 0)
             tier = 'quick' if quick else 'thorough'
             if l == 7 and not (order in (0, 4)):
                 continue
@@ -21,7 +21,7 @@ for l in (0, 1, 2, 7):
                  stubs=ALLOC, cap=1200, cap_thorough=5400, mem=14, weight=10 * l + bin(7 - mask).count('1'),
                  desc='BitVector %d symbolic bits written with support subset %d (1 rank, 2 select, 4 select_zero), loaded, rest enabled in order %d: equals the fully enabled original; idempotent; bits unchanged' % (l, mask, order),
                  shape={'len': l, 'written_supports': mask, 'enable_order': order})
-for (l, mask, tier) in ((65, 1, 'quick'), (2, 7, 'quick'), (65, 0, 'thorough'), (7, 7, 'thorough')):
+for (l, mask, tier) in ((65, 1, 'quick'), (1, 7, 'quick'), (2, 7, 'thorough'), (65, 0, 'thorough'), (7, 7, 'thorough')):
     inst(P, 'c19_skip_supports_l%d_m%d' % (l, mask), 'c19::skip_supports(%d, %d)' % (l, mask), tier=tier, unwind=26, unwindset=uw(l), stubs=ALLOC if mask & 6 else [],
          cap=1200, mem=14, desc='skip_option over the three optional supports of a serialized BitVector (%d bits, supports %d) lands exactly on the next value' % (l, mask),
          shape={'len': l, 'written_supports': mask})
